@@ -45,7 +45,10 @@ OptionMutations == {"set-some", "set-none"}
 BlobMutations   == {"shorten", "lengthen", "prefix+1", "prefix-1", "prefix-max", "empty", "flip-first-bit", "flip-last-bit",
                     "zero-first-chunk", "swap-chunks", "dup-last-chunk", "drop-first-chunk"}
 
-MutationsOf(f) == IF f.kind = "scalar" THEN {[field |-> f.name, m |-> x] : x \in ScalarMutations \cup (IF f.name = "gkr.tag" THEN OptionMutations ELSE {})}
+\* a vint64 length prefix whose first byte is 0 announces an eight-byte length (the following bytes): a huge vector
+VBlobMutations  == BlobMutations \cup {"prefix-wide"}
+MutationsOf(f) == IF f.kind = "vblob" THEN {[field |-> f.name, m |-> x] : x \in VBlobMutations} ELSE
+                  IF f.kind = "scalar" THEN {[field |-> f.name, m |-> x] : x \in ScalarMutations \cup (IF f.name = "gkr.tag" THEN OptionMutations ELSE {})}
                   ELSE {[field |-> f.name, m |-> x] : x \in BlobMutations}
 AllMutations(segments, layers, gkr) == UNION {MutationsOf(Grammar(segments, layers, gkr)[i]) : i \in DOMAIN Grammar(segments, layers, gkr)}
 
